@@ -71,19 +71,27 @@ class Rings:
         c.rings = [list(r) for r in self.rings]
         return c
 
+    def next(self, n):
+        r = self.ring_of(n)
+        return r[(r.index(n) + 1) % len(r)]
+
+    def prev(self, n):
+        r = self.ring_of(n)
+        return r[(r.index(n) - 1) % len(r)]
+
     # ---- operations, same text as the protocol
     def apply(self, op):
         t = op.split()
         o = t[0]
         a = [int(x) for x in t[1:]]
-        if o in ("L", "SN", "PN"):
+        if o in ("L", "SN", "PN", "VN", "WN"):
             self.rings.insert(0, [f"h{a[0]}"])
-        elif o in ("E", "SC", "PC"):
+        elif o in ("E", "SC", "PC", "VC", "WC"):
             e, k = a[0], a[1]
             for r in self.rings:
                 if r[0] == f"h{k}":
                     r.append(f"e{e}")
-        elif o in ("d", "SX"):
+        elif o == "d":
             self.erase(f"e{a[0]}")
         elif o == "u":
             self.erase(f"e{a[0]}")
@@ -174,31 +182,134 @@ def gen_list_history(rng, length):
     return ops
 
 
-SIG_WEIGHTS = {"N": 3, "C": 10, "X": 6, "SM": 3, "SA": 5, "SD": 2, "call": 4}
+SIG_WEIGHTS = {"N": 3, "C": 12, "X": 5, "SM": 3, "SA": 5, "SD": 2, "call": 4,
+               "HA": 3, "HW": 2, "KP": 4, "KO": 2, "KE": 3, "KC": 2, "KA": 2}
+FAMS = "SPVW"            # S int/unregister, P int/plain, V void/unregister, W void/plain
+N_CONTS = 3
+
+
+class SigState:
+    """generator-side mirror of the driver's signal state: rings + families + owners of connections"""
+
+    def __init__(self):
+        self.st = Rings()
+        self.fam = {}                               # signal id -> "S" | "P" | "V" | "W"
+        self.own = {}                               # owner (holder h = h, container c = 16 + c) -> [connection ids]
+        self.nextf = 1
+
+    def copy(self):
+        c = SigState()
+        c.st = self.st.copy()
+        c.fam = dict(self.fam)
+        c.own = {k: list(v) for k, v in self.own.items() if v}
+        c.nextf = self.nextf
+        return c
+
+    def o(self, k):
+        return self.own.get(k, [])
+
+    def conns(self):
+        return sorted(x for v in self.own.values() for x in v)
+
+    def connect_op(self, x, k, u=None):
+        f = self.nextf
+        fm = self.fam[k]
+        if fm in "SV":
+            return f"{fm}C {x} {k} {f} {x % 7 if u is None else u}"
+        return f"{fm}C {x} {k} {f}"
+
+    def kill(self, xs):
+        for x in xs:
+            self.st.erase(f"e{x}")
+
+    def apply(self, op):
+        t = op.split()
+        o = t[0]
+        a = [int(x) for x in t[1:]]
+        if o in ("call", "vcall"):
+            return
+        if o[1] == "N" and o[0] in FAMS:
+            self.fam[a[0]] = o[0]
+            self.st.apply(op)
+        elif o[1] == "C" and o[0] in FAMS:
+            self.st.apply(op)
+            self.own[a[0]] = self.o(a[0]) + [a[0]]
+            self.nextf = self.nextf % 97 + 1
+        elif o == "SM":
+            self.fam[a[0]] = self.fam[a[1]]
+            self.st.apply(op)
+        elif o in ("SA", "SD"):
+            self.st.apply(op)
+            if o == "SD":
+                del self.fam[a[0]]
+        elif o == "SX":
+            self.kill(self.o(a[0]))
+            self.own[a[0]] = []
+        elif o == "HA":
+            self.kill(self.o(a[0]))
+            self.own[a[0]] = self.o(a[1])
+            self.own[a[1]] = []
+        elif o == "HW":
+            self.own[a[0]], self.own[a[1]] = self.o(a[1]), self.o(a[0])
+        elif o == "KP":
+            self.own[16 + a[0]] = self.o(16 + a[0]) + self.o(a[1])
+            self.own[a[1]] = []
+        elif o == "KO":
+            c = self.o(16 + a[0])
+            self.own[a[1]] = [c[-1]]
+            self.own[16 + a[0]] = c[:-1]
+        elif o == "KE":
+            c = self.o(16 + a[0])
+            self.kill([c[a[1]]])
+            self.own[16 + a[0]] = c[:a[1]] + c[a[1] + 1:]
+        elif o == "KC":
+            self.kill(self.o(16 + a[0]))
+            self.own[16 + a[0]] = []
+        elif o == "KA":
+            self.kill(self.o(16 + a[0]))
+            self.own[16 + a[0]] = self.o(16 + a[1])
+            self.own[16 + a[1]] = []
+        else:
+            raise ValueError(op)
+
+    def valid_ops(self, sig_ids=LIST_IDS, conn_ids=ELEM_IDS, max_sigs=MAX_LISTS_LIVE, max_conns=MAX_ELEMS_LIVE,
+                  n_conts=N_CONTS, canonical=False, fams=FAMS, rng=None):
+        """all valid operation lines in this state, grouped by kind"""
+        ls = self.st.lists()
+        used = self.conns()
+        free_l = [k for k in range(sig_ids) if k not in ls]
+        free_h = [h for h in range(conn_ids) if not self.o(h) and h not in used]   # holder free and id unused
+        empty_h = [h for h in range(conn_ids) if not self.o(h)]
+        full_h = [h for h in range(conn_ids) if self.o(h)]
+        if canonical:
+            free_l, free_h, empty_h = free_l[:1], free_h[:1], empty_h[:1]
+        cand = {}
+        rb = (lambda n: rng.below(n)) if rng else (lambda n: 0)
+        if len(ls) < max_sigs:
+            cand["N"] = [(f"{f}N {k} {(rb(8) if rng else k + 1)}" if f in "SP" else f"{f}N {k}") for k in free_l for f in fams]
+            cand["SM"] = [f"SM {k2} {k}" for k2 in free_l for k in ls]
+        if len(used) < max_conns and ls:
+            cand["C"] = [self.connect_op(h, k, rb(6) if rng else None) for h in free_h for k in ls]
+        cand["X"] = [f"SX {h}" for h in full_h]
+        cand["SA"] = [f"SA {k} {k2}" for k in ls for k2 in ls if self.fam[k] == self.fam[k2]]
+        cand["SD"] = [f"SD {k}" for k in ls]
+        cand["call"] = [(f"call {k} {rb(50)} {rb(50)}" if self.fam[k] in "SP" else f"vcall {k} {rb(50)}") for k in ls]
+        cand["HA"] = [f"HA {a} {b}" for b in full_h for a in (full_h + empty_h) if a != b]
+        cand["HW"] = [f"HW {a} {b}" for a in full_h for b in (full_h + empty_h) if a != b]
+        cand["KP"] = [f"KP {c} {h}" for c in range(n_conts) for h in full_h]
+        cand["KO"] = [f"KO {c} {h}" for c in range(n_conts) if self.o(16 + c) for h in empty_h]
+        cand["KE"] = [f"KE {c} {i}" for c in range(n_conts) for i in range(len(self.o(16 + c)))]
+        cand["KC"] = [f"KC {c}" for c in range(n_conts) if self.o(16 + c)]
+        cand["KA"] = [f"KA {c} {c2}" for c in range(n_conts) for c2 in range(n_conts) if c != c2 and (self.o(16 + c) or self.o(16 + c2))]
+        return {k: v for k, v in cand.items() if v}
 
 
 def gen_sig_history(rng, length):
-    st = Rings()
-    fam = {}        # signal id -> "S" | "P"
+    g = SigState()
     ops = []
-    nextf = [1]
     while len(ops) < length:
-        ls, es = st.lists(), st.elems()
-        free_l = [k for k in range(LIST_IDS) if k not in ls]
-        free_e = [e for e in range(ELEM_IDS) if e not in es]
-        cand = {}
-        if len(ls) < MAX_LISTS_LIVE:
-            cand["N"] = [f"{f}N {k} {rng.below(8)}" for k in free_l for f in "SP"]
-            cand["SM"] = [f"SM {k2} {k}" for k2 in free_l for k in ls]
-        if len(es) < MAX_ELEMS_LIVE and ls:
-            cand["C"] = [(f"SC {e} {k} {nextf[0]} {rng.below(6)}" if fam[k] == "S" else f"PC {e} {k} {nextf[0]}") for e in free_e for k in ls]
-        if es:
-            cand["X"] = [f"SX {e}" for e in es]
-        if ls:
-            cand["SA"] = [f"SA {k} {k2}" for k in ls for k2 in ls if fam[k] == fam[k2]]
-            cand["SD"] = [f"SD {k}" for k in ls]
-            cand["call"] = [f"call {k} {rng.below(50)} {rng.below(50)}" for k in ls]
-        if not ls:
+        cand = g.valid_ops(rng=rng)
+        if not g.st.lists():
             cand = {"N": cand["N"]}
         kinds = sorted(cand)
         w = [SIG_WEIGHTS[k] for k in kinds]
@@ -211,15 +322,224 @@ def gen_sig_history(rng, length):
         t = op.split()
         if k == "SA" and t[1] == t[2] and not rng.chance(1, 4):
             continue
-        if k == "N":
-            fam[int(t[1])] = t[0][0]
-        if k == "SM":
-            fam[int(t[1])] = fam[int(t[2])]
-        if k == "C":
-            nextf[0] = nextf[0] % 97 + 1
         ops.append(op)
-        if k != "call":
-            st.apply(op)
+        g.apply(op)
+    return ops
+
+
+def sig_scenarios():
+    """start states for the exhaustive signal batch"""
+    return [
+        ["SN 0 1"],
+        ["SN 0 1", "SC 0 0 1 0", "SC 1 0 2 1"],
+        ["SN 0 1", "SC 0 0 1 0", "SC 1 0 2 1", "SN 1 2", "SC 2 1 3 2"],
+        ["PN 0 1", "PC 0 0 1", "PC 1 0 2", "PN 1 2"],
+        ["VN 0", "VC 0 0 1 0", "VC 1 0 2 1", "VN 1", "VC 2 1 3 2"],
+        ["WN 0", "WC 0 0 1", "WC 1 0 2"],
+        ["SN 0 1", "SC 0 0 1 0", "SC 1 0 2 1", "SC 2 0 3 2", "KP 0 0", "KP 0 2"],       # container [c0, c2], holder 1
+        ["SN 0 1", "SC 0 0 1 0", "SC 1 0 2 1", "SM 1 0", "SC 2 0 3 2"],                  # moved-from signal with a new connection
+        ["VN 0", "VC 0 0 1 0", "VC 1 0 2 1", "VC 2 0 3 2", "KP 0 2", "KP 0 1", "KP 1 0"],  # container order != connection order
+    ]
+
+
+def enum_sig_small(depth, only=None):
+    out = []
+    for idx, pre in enumerate(sig_scenarios()):
+        if only is not None and idx not in only:
+            continue
+        g0 = SigState()
+        for o in pre:
+            g0.apply(o)
+        fams = "".join(sorted(set(g0.fam.values())))
+
+        def rec(g, seq, d):
+            if seq:
+                out.append(pre + seq)
+            if d == 0:
+                return
+            cand = g.valid_ops(sig_ids=3, conn_ids=5, max_sigs=3, max_conns=4, n_conts=2, canonical=True, fams=fams)
+            for k in sorted(cand):
+                if k == "call":
+                    continue            # the dump of every line calls every signal
+                for op in cand[k]:
+                    g2 = g.copy()
+                    g2.apply(op)
+                    rec(g2, seq + [op], d - 1)
+
+        rec(g0, [], depth)
+    return out
+
+
+# ------------------------------------------------------------------ iterator objects
+class ItState:
+    """rings + iterator slots (slot -> node name | "null")"""
+
+    def __init__(self, st):
+        self.st = st
+        self.slots = {}
+
+    def apply(self, op):
+        t = op.split()
+        o = t[0]
+        if o in ("IB", "CB"):
+            self.slots[int(t[1])] = self.st.next(f"h{t[2]}")
+        elif o in ("IE", "CE"):
+            self.slots[int(t[1])] = f"h{t[2]}"
+        elif o in ("IP", "CP"):
+            self.slots[int(t[1])] = f"e{t[2]}"
+        elif o in ("IN", "CN"):
+            self.slots[int(t[1])] = "null"
+        elif o == "IC":
+            self.slots[int(t[1])] = self.slots[int(t[2])]
+        elif o == "IX":
+            del self.slots[int(t[1])]
+        elif o in ("I+", "Ip"):
+            self.slots[int(t[1])] = self.st.next(self.slots[int(t[1])])
+        elif o in ("I-", "Im"):
+            self.slots[int(t[1])] = self.st.prev(self.slots[int(t[1])])
+        elif o in ("I=", "I*"):
+            pass
+        else:
+            self.st.apply(op)
+            if o == "d":
+                self.slots = {i: n for i, n in self.slots.items() if n != f"e{t[1]}"}
+            if o == "LD":
+                self.slots = {i: n for i, n in self.slots.items() if n != f"h{t[1]}"}
+
+
+def iter_setup(st):
+    """iterators at every kind of position of the start state: begin/end of the first and last list (const and not),
+    the first and the last element by pointer, a default-constructed one"""
+    ls, es = st.lists(), st.elems()
+    ops = []
+    if ls:
+        ops += [f"IB 0 {ls[0]}", f"IE 1 {ls[0]}", f"CB 2 {ls[-1]}", f"CE 3 {ls[-1]}"]
+    if es:
+        ops += [f"IP 4 {es[0]}", f"CP 5 {es[-1]}"]
+    ops.append("IN 6")
+    return ops
+
+
+CONST_SLOTS = (2, 3, 5)
+
+
+def iter_probes(g):
+    """every iterator operation on every surviving slot (through the scratch slot 7), every comparable pair"""
+    ops = []
+    for i in sorted(g.slots):
+        n = g.slots[i]
+        if n == "null":
+            continue
+        for o in ("I+", "I-", "Ip", "Im"):
+            ops += [f"IC 7 {i}", f"{o} 7", f"{o} 7"]
+        if n[0] == "e":
+            ops.append(f"I* {i}")
+    ss = sorted(g.slots)
+    for i in ss:
+        for j in ss:
+            if (i in CONST_SLOTS) == (j in CONST_SLOTS) and i <= j:
+                ops.append(f"I= {i} {j}")
+    if 7 in g.slots or any(n != "null" for n in g.slots.values()):
+        ops.append("IX 7")
+    return ops
+
+
+def enum_iter_small(depth):
+    """scenario; iterators at every position; every valid sequence of <= depth list operations; all probes"""
+    out = []
+    for pre in scenarios():
+        st0 = Rings()
+        for o in pre:
+            st0.apply(o)
+        setup = iter_setup(st0)
+
+        def rec(st, seq, d):
+            g = ItState(st0.copy())
+            for o in setup + seq:
+                g.apply(o)
+            out.append(pre + setup + seq + iter_probes(g))
+            if d == 0:
+                return
+            cand = valid_list_ops(st, list_ids=4, elem_ids=6, max_lists=3, max_elems=4, canonical=True)
+            for k in sorted(cand):
+                for op in cand[k]:
+                    st2 = st.copy()
+                    st2.apply(op)
+                    rec(st2, seq + [op], d - 1)
+
+        rec(st0, [], depth)
+    return out
+
+
+ITER_KINDS = ["IB", "IE", "CB", "CE", "IP", "CP", "IN", "CN", "IC", "IX", "I+", "I-", "Ip", "Im", "I=", "I*"]
+
+
+def gen_iter_history(rng, length):
+    """random list history with iterator operations interleaved (iterators kept across mutations)"""
+    g = ItState(Rings())
+    const = {}
+    ops = []
+    while len(ops) < length:
+        st = g.st
+        if not st.lists() or not rng.chance(3, 5):
+            cand = valid_list_ops(st)
+            kinds = sorted(cand)
+            w = [LIST_WEIGHTS[k] for k in kinds]
+            if not st.lists():
+                kinds, w = ["L"], [1]
+            x = rng.below(sum(w))
+            for k, wk in zip(kinds, w):
+                if x < wk:
+                    break
+                x -= wk
+            op = rng.choice(cand[k])
+        else:
+            k = rng.choice(ITER_KINDS)
+            i = rng.below(8)
+            live = sorted(g.slots)
+            pos = [j for j in live if g.slots[j] != "null"]
+            if k in ("IB", "IE", "CB", "CE"):
+                op = f"{k} {i} {rng.choice(st.lists())}"
+            elif k in ("IP", "CP"):
+                if not st.elems():
+                    continue
+                op = f"{k} {i} {rng.choice(st.elems())}"
+            elif k in ("IN", "CN"):
+                if not rng.chance(1, 4):
+                    continue
+                op = f"{k} {i}"
+            elif k == "IC":
+                if not live:
+                    continue
+                op = f"IC {i} {rng.choice(live)}"
+            elif k == "IX":
+                if not live or not rng.chance(1, 3):
+                    continue
+                op = f"IX {rng.choice(live)}"
+            elif k in ("I+", "I-", "Ip", "Im"):
+                if not pos:
+                    continue
+                op = f"{k} {rng.choice(pos)}"
+            elif k == "I=":
+                pairs = [(a, b) for a in live for b in live if const[a] == const[b]]
+                if not pairs:
+                    continue
+                a, b = rng.choice(pairs)
+                op = f"I= {a} {b}"
+            else:
+                de = [j for j in pos if g.slots[j][0] == "e"]
+                if not de:
+                    continue
+                op = f"I* {rng.choice(de)}"
+            t = op.split()
+            if t[0] in ("IB", "IE", "IP", "IN"):
+                const[int(t[1])] = False
+            elif t[0] in ("CB", "CE", "CP", "CN"):
+                const[int(t[1])] = True
+            elif t[0] == "IC":
+                const[int(t[1])] = const[int(t[2])]
+        ops.append(op)
+        g.apply(op)
     return ops
 
 
@@ -264,6 +584,7 @@ def enum_small(depth, max_lists=3, max_elems=4, only=None):
     return out
 
 
+SIG_DEEP = [1, 4, 6]
 DEEP_SCENARIOS = [0, 1, 2, 3, 5, 6]     # depth 4 in the thorough tier (the others would be > 4M lines each)
 
 
@@ -300,10 +621,33 @@ def batches(rng, tier):
     n, ln = (15000, 50) if thorough else (2000, 30)
     hs = [gen_list_history(r, r.range(ln // 2, ln)) for _ in range(n)]
     yield Batch("lists-random", flat(hs), kind="history", note=f"{n} random histories of length {ln // 2}..{ln}; kinds weighted {LIST_WEIGHTS}")
+    idepth = 2 if thorough else 1
+    its = enum_iter_small(idepth)
+    yield Batch("iterators-small-scope", flat(its), kind="history", exhaustive=True,
+                note=f"after each of {len(scenarios())} start scenarios: iterators at every kind of position (begin/end, const/non-const, by element "
+                     f"pointer, default), then every valid sequence of <= {idepth} list operations, then ++ -- it++ it-- * -> == != on every surviving "
+                     f"iterator; {len(its)} histories")
+    r = rng.fork("iterators")
+    n, ln = (6000, 60) if thorough else (800, 40)
+    hs = [gen_iter_history(r, r.range(ln // 2, ln)) for _ in range(n)]
+    yield Batch("iterators-random", flat(hs), kind="history",
+                note=f"{n} random list histories of length {ln // 2}..{ln} with iterator operations interleaved (iterators kept across mutations)")
+    sdepth = 3
+    ssmall = maximal_only(enum_sig_small(sdepth))
+    yield Batch("signals-small-scope", flat(ssmall), kind="history", exhaustive=True,
+                note=f"every valid sequence of <= {sdepth} signal / owner operations (canonical fresh ids) after each of {len(sig_scenarios())} start scenarios "
+                     f"(all four instantiations); {len(ssmall)} maximal histories")
+    if thorough:
+        for idx in SIG_DEEP:
+            deep = maximal_only(enum_sig_small(4, only=[idx]))
+            yield Batch(f"signals-small-scope-depth4-s{idx}", flat(deep), kind="history", exhaustive=True,
+                        note=f"every valid sequence of <= 4 operations after signal scenario {idx}; {len(deep)} maximal histories")
     r = rng.fork("signals")
     n, ln = (10000, 50) if thorough else (1500, 30)
     hs = [gen_sig_history(r, r.range(ln // 2, ln)) for _ in range(n)]
-    yield Batch("signals-random", flat(hs), kind="history", note=f"{n} random histories of length {ln // 2}..{ln}; kinds weighted {SIG_WEIGHTS}; both signal::base and unregister::base")
+    yield Batch("signals-random", flat(hs), kind="history",
+                note=f"{n} random histories of length {ln // 2}..{ln}; kinds weighted {SIG_WEIGHTS}; int(int) and void(int) signals over signal::base and "
+                     f"unregister::base; connections held by optional_auto_connection and auto_connection_container")
 
 
 def equivalent(op, impl, model):
